@@ -556,7 +556,7 @@ theorem parsePrecision_eq (t : List Nat) (pr : Option Nat) (r : List Nat)
     (h : pyPrecision t = some (pr, r)) :
     parsePrecision t = match pr with
       | none => .ok (none, r)
-      | some n => if n ≤ usizeMax then (if n > i32Max then .error .precisionTooBig else .ok (some n, r))
+      | some n => if n ≤ usizeMax then (if n > isizeMax then .error .precisionTooBig else .ok (some n, r))
                   else .error .decimalDigitsTooMany := by
   by_cases h46 : t.head? = some 46
   · obtain ⟨rest, rfl⟩ : ∃ rest, t = 46 :: rest := by
@@ -625,15 +625,14 @@ theorem typeOfChar_isSome (c : Nat) (h : isType c = true) : ∃ ft, typeOfChar c
 
 /-! ### the whole parser -/
 
-/-- the Rust `FormatSpec` that a parsed reference spec denotes (zero flag folded into fill/align,
-    as CPython does for numbers) -/
+/-- the Rust `FormatSpec` that a parsed reference spec denotes (the `0` flag becomes the fill `0`; the
+    alignment stays as written — what the flag implies is decided per value type, `numberAlign`) -/
 def normOf (p : PySpec) : FormatSpec :=
   { conversion := none
     fill := match p.fill with
       | some f => some f
       | none => if p.zero then some 48 else none
-    align := if p.zero ∧ p.fill.isNone then some ((p.align.bind Align.fromChar).getD .afterSign)
-             else p.align.bind Align.fromChar
+    align := p.align.bind Align.fromChar
     sign := p.sign.bind signOfChar
     alt := p.alt
     width := p.width
@@ -659,7 +658,7 @@ theorem pyFlag_false {c : Nat} {t r : List Nat} (h : pyFlag c t = (false, r)) : 
 
 theorem parse_spec_complete (s : List Nat) (p : PySpec) (h : pyParseSpec s = some p)
     (hz : p.z = false)
-    (hw : ∀ w, p.width = some w → w ≤ i32Max) (hp : ∀ n, p.precision = some n → n ≤ i32Max) :
+    (hw : ∀ w, p.width = some w → w ≤ i32Max) (hp : ∀ n, p.precision = some n → n ≤ isizeMax) :
     parseSpec s = .ok (normOf p) := by
   unfold pyParseSpec at h
   rcases hfa : pyFillAlign s with ⟨fill, align, t1⟩
@@ -707,8 +706,8 @@ theorem parse_spec_complete (s : List Nat) (p : PySpec) (h : pyParseSpec s = som
         | none => rfl
         | some n =>
           have h1 := hp n rfl
-          have h2 : n ≤ usizeMax := by unfold usizeMax; unfold i32Max at h1; omega
-          have h3 : ¬ n > i32Max := by omega
+          have h2 : n ≤ usizeMax := by unfold usizeMax; unfold isizeMax at h1; omega
+          have h3 : ¬ n > isizeMax := by omega
           simp [h2, h3]
       unfold parseSpec
       simp only [parseFillAndAlign_eq s fill align t1 hfa,
@@ -753,7 +752,7 @@ theorem parseSpec_z (s : List Nat) (fill align : Option Nat) (t1 : List Nat)
 theorem parse_spec_sound (s : List Nat) (r : FormatSpec) (h : parseSpec s = .ok r)
     (hN : r.ftype ≠ some (.number true)) :
     ∃ p, pyParseSpec s = some p ∧ p.z = false ∧ normOf p = r ∧
-      (∀ w, p.width = some w → w ≤ i32Max) ∧ (∀ n, p.precision = some n → n ≤ i32Max) := by
+      (∀ w, p.width = some w → w ≤ i32Max) ∧ (∀ n, p.precision = some n → n ≤ isizeMax) := by
   rcases hfa : pyFillAlign s with ⟨fill, align, t1⟩
   rcases hs : pyOpt isSign t1 with ⟨sign, t2⟩
   by_cases hz : t2.head? = some 122
@@ -801,11 +800,11 @@ theorem parse_spec_sound (s : List Nat) (r : FormatSpec) (h : parseSpec s = .ok 
   | some pr =>
     rcases pr with ⟨precision, t8⟩
     have hprec := parsePrecision_eq t7 precision t8 hpr
-    have hpb : ∀ n, precision = some n → n ≤ i32Max := by
+    have hpb : ∀ n, precision = some n → n ≤ isizeMax := by
       intro n hn'; subst hn'
       simp only at hprec
       by_cases hb : n ≤ usizeMax
-      · by_cases hb2 : n > i32Max
+      · by_cases hb2 : n > isizeMax
         · simp [hprec, hb, hb2] at h
         · omega
       · simp [hprec, hb] at h
@@ -815,8 +814,8 @@ theorem parse_spec_sound (s : List Nat) (r : FormatSpec) (h : parseSpec s = .ok 
       | none => rfl
       | some n =>
         have h1 := hpb n rfl
-        have h2 : n ≤ usizeMax := by unfold usizeMax; unfold i32Max at h1; omega
-        have h3 : ¬ n > i32Max := by omega
+        have h2 : n ≤ usizeMax := by unfold usizeMax; unfold isizeMax at h1; omega
+        have h3 : ¬ n > isizeMax := by omega
         simp [h2, h3]
     simp only [hprec'] at h
     rcases ht : pyOpt isType t8 with ⟨type, t9⟩
@@ -991,7 +990,7 @@ theorem pyPad_all (f a w : Nat) (body : List Nat) (P : Nat → Bool) (hb : body.
 
 /-! ### `format_string` -/
 
-def boundsOk (p : PySpec) : Bool := p.width.getD 0 < 2 ^ 31 && p.precision.getD 0 < 2 ^ 31
+def boundsOk (p : PySpec) : Bool := p.width.getD 0 < 2 ^ 31 && p.precision.getD 0 < 2 ^ 63
 
 /-- the characters `format_string` keeps -/
 def strKept (p : PySpec) (s : List Nat) : List Nat :=
@@ -999,16 +998,10 @@ def strKept (p : PySpec) (s : List Nat) : List Nat :=
   | some n => s.take n
   | none => s
 
-/-- neither of the two remaining `str` deviations applies: `=` alignment accepted, and the `0` flag
-    without alignment padding on the left (both come from folding the flag into `align` at parse time) -/
-def strShapeFree (p : PySpec) (s : List Nat) : Bool :=
-  p.align != some 61 &&
-  !(p.zero && p.fill.isNone && p.align.isNone && (strKept p s).length < p.width.getD 0)
-
+/-- every spec in the grammar (width below 2^31, precision below 2^63 — larger ones are rejected by
+    both sides) and every text shorter than 2^30: no `str` shape is excluded any more -/
 def InDomainStr (p : PySpec) (s : List Nat) : Bool :=
-  boundsOk p && s.length < 2 ^ 30 &&
-  (p.grouping.isSome || (p.type != none && p.type != some 115) || p.sign.isSome || p.alt ||
-    strShapeFree p s)
+  boundsOk p && s.length < 2 ^ 30
 
 theorem signOfChar_some' (c : Nat) (h : isSign c = true) : ∃ x, signOfChar c = some x := by
   simp only [isSign, Bool.or_eq_true, decide_eq_true_eq] at h
@@ -1043,8 +1036,8 @@ theorem alignChar_fromChar (c : Nat) (h : isAlign c = true) :
 theorem formatString_eq (p : PySpec) (s : List Nat) (wf : WfSpec p) (hz : p.z = false)
     (hd : InDomainStr p s = true) :
     (formatString (normOf p) s).view = some (pyFormatStr p s) := by
-  simp only [InDomainStr, boundsOk, Bool.and_eq_true, Bool.or_eq_true, decide_eq_true_eq] at hd
-  obtain ⟨⟨⟨hbw, hbp⟩, hlen⟩, hd⟩ := hd
+  simp only [InDomainStr, boundsOk, Bool.and_eq_true, decide_eq_true_eq] at hd
+  obtain ⟨⟨hbw, hbp⟩, hlen⟩ := hd
   cases hg : p.grouping with
   | some g =>
     obtain ⟨x, hx⟩ := groupingOfChar_some g (wf.grouping g hg)
@@ -1077,60 +1070,52 @@ theorem formatString_eq (p : PySpec) (s : List Nat) (wf : WfSpec p) (hz : p.z = 
           rw [hpy]
           rcases hft with hft | hft <;> rw [hft] <;> simp [hsg, hs, hal, ha, Res.view]
         | false =>
-          have hsf : strShapeFree p s = true := by
-            rcases hd with (((h | h) | h) | h) | h
-            · simp [hg] at h
-            · rcases hty with h' | h' <;> simp [h'] at h
-            · simp [hs] at h
-            · simp [ha] at h
-            · exact h
-          simp only [strShapeFree, Bool.and_eq_true, Bool.not_eq_true', bne_iff_ne, ne_eq] at hsf
-          obtain ⟨heq, hzero⟩ := hsf
           have hkl : (strKept p s).length ≤ s.length := by
             unfold strKept; split <;> simp <;> omega
           have hw : ∀ w, (normOf p).width = some w → w < 2 ^ 31 := by
             intro w hw'; simp only [normOf] at hw'; rw [hw'] at hbw; simpa using hbw
-          have hfsa := formatSignAndAlign_eq (normOf p) (strKept p s) [] (strKept p s).length .left hw
-            (by simp; omega) rfl
-          rw [normOf_fill] at hfsa
-          have halign : pyPad (effFill p) (alignChar ((normOf p).align.getD .left)) ((normOf p).width.getD 0) []
-              (strKept p s) = pyPad (effFill p) (p.align.getD 60) (p.width.getD 0) [] (strKept p s) := by
+          have haln : (normOf p).align = p.align.bind Align.fromChar := rfl
+          by_cases heq : p.align = some 61
+          · -- `=` alignment: rejected by both
+            have hpy : pyFormatStr p s = none := by simp [pyFormatStr, heq]
+            rw [hpy]
+            have : (normOf p).align = some .afterSign := by rw [haln, heq]; rfl
+            rcases hft with hft | hft <;> rw [hft] <;> simp [hsg, hs, hal, ha, this, Res.view]
+          · have hne : (normOf p).align ≠ some .afterSign := by
+              rw [haln]
+              cases hal' : p.align with
+              | none => simp
+              | some a =>
+                obtain ⟨al, h1, h2⟩ := alignChar_fromChar a (wf.align a hal')
+                simp only [Option.bind_some, h1, ne_eq, Option.some.injEq]
+                intro h; subst h; apply heq; rw [hal', ← h2]; rfl
+            have hfsa := formatSignAndAlign_eq (normOf p) (strKept p s) [] (strKept p s).length .left hw
+              (by simp; omega) rfl
+            rw [normOf_fill] at hfsa
+            have halign : alignChar ((normOf p).align.getD .left) = p.align.getD 60 := by
+              rw [haln]
+              cases hal' : p.align with
+              | none => rfl
+              | some a =>
+                obtain ⟨al, h1, h2⟩ := alignChar_fromChar a (wf.align a hal')
+                simp [h1, h2]
             have hwd : (normOf p).width = p.width := rfl
-            rw [hwd]
-            by_cases hzf : p.zero = true ∧ p.fill.isNone = true
-            · cases hal' : p.align with
-              | some a =>
-                obtain ⟨al, h1, h2⟩ := alignChar_fromChar a (wf.align a hal')
-                simp [normOf, hzf, hal', h1, h2]
-              | none =>
-                have hnopad : ¬ (strKept p s).length < p.width.getD 0 := by
-                  intro hlt
-                  simp [hzf.1, hzf.2, hal', hlt] at hzero
-                rw [pyPad_nopad _ _ _ _ _ (by simp; omega), pyPad_nopad _ _ _ _ _ (by simp; omega)]
-            · cases hal' : p.align with
-              | some a =>
-                obtain ⟨al, h1, h2⟩ := alignChar_fromChar a (wf.align a hal')
-                simp [normOf, hal', h1, h2]
-              | none =>
-                have hzf' : ¬ (p.zero = true ∧ p.fill = none) := by
-                  simpa [Option.isNone_iff_eq_none] using hzf
-                simp [normOf, hzf', hal', alignChar]
-          rw [halign] at hfsa
-          have hpy : pyFormatStr p s = some (pyPad (effFill p) (p.align.getD 60) (p.width.getD 0) []
-              (strKept p s)) := by
-            unfold pyFormatStr strKept
-            have h1 : ¬ (p.z = true ∨ p.sign.isSome = true ∨ p.alt = true ∨ p.grouping.isSome = true ∨
-                p.align = some 61) := by
-              simp [hz, hs, ha, hg, heq]
-            rw [if_neg h1, if_neg hty2]
-            rfl
-          rw [hpy]
-          have hprn : (normOf p).precision = p.precision := rfl
-          have hkept : truncateChars (normOf p).precision s = strKept p s := by
-            rw [hprn]; unfold strKept truncateChars; cases p.precision <;> rfl
-          rcases hft with hft | hft <;> rw [hft] <;>
-            simp only [hsg, hs, hal, ha, Option.bind_none, Option.isSome_none, Bool.false_eq_true, if_false,
-              hkept, hfsa, Res.ofOption, Res.view]
+            rw [halign, hwd] at hfsa
+            have hpy : pyFormatStr p s = some (pyPad (effFill p) (p.align.getD 60) (p.width.getD 0) []
+                (strKept p s)) := by
+              unfold pyFormatStr strKept
+              have h1 : ¬ (p.z = true ∨ p.sign.isSome = true ∨ p.alt = true ∨ p.grouping.isSome = true ∨
+                  p.align = some 61) := by
+                simp [hz, hs, ha, hg, heq]
+              rw [if_neg h1, if_neg hty2]
+              rfl
+            rw [hpy]
+            have hprn : (normOf p).precision = p.precision := rfl
+            have hkept : truncateChars (normOf p).precision s = strKept p s := by
+              rw [hprn]; unfold strKept truncateChars; cases p.precision <;> rfl
+            rcases hft with hft | hft <;> rw [hft] <;>
+              simp only [hsg, hs, hal, ha, Option.bind_none, Option.isSome_none, Bool.false_eq_true, if_false,
+                hne, hkept, hfsa, Res.ofOption, Res.view]
     · have hty' : p.type ≠ none ∧ p.type ≠ some 115 := by
         constructor <;> intro h <;> exact hty (by simp [h])
       obtain ⟨t, ht⟩ : ∃ t, p.type = some t := by
@@ -1277,7 +1262,7 @@ def rsBody (r : FormatSpec) (k : Nat) (raw pfx : List Nat) : List Nat :=
   | none => raw
   | some g =>
     pyGroupPad k (sepChar g)
-      (if r.fill = some 48 ∧ r.align = some .afterSign then r.width.getD raw.length - pfx.length else 0) raw
+      (if r.fill = some 48 ∧ numberAlign r = .afterSign then r.width.getD raw.length - pfx.length else 0) raw
 
 /-- the integer part `Spec.assemble` pads -/
 def pyIntPart (p : PySpec) (k : Nat) (lead intDigits remainder : List Nat) : List Nat :=
@@ -1330,7 +1315,7 @@ theorem addMagnitudeSeparators_int (r : FormatSpec) (raw pfx : List Nat) (k : Na
     have h3 : ((3 : Nat) : Int) = 3 := rfl
     have h4 : ((4 : Nat) : Int) = 4 := rfl
     rw [wrapI32_small raw.length (by omega)]
-    by_cases hzp : r.fill = some 48 ∧ r.align = some .afterSign
+    by_cases hzp : r.fill = some 48 ∧ numberAlign r = .afterSign
     · simp only [hzp, and_self, if_true]
       rw [wrapI32_small _ hwv, wrapI32_small pfx.length (by omega)]
       rw [chkI32_ok _ (by omega) (by omega)]
@@ -1436,13 +1421,15 @@ theorem sSign_eq (p : PySpec) (wf : WfSpec p) (neg : Bool) :
       rcases this with (h | h) | h <;> subst h <;> rfl
   · rfl
 
+/-- the alignment a number gets (`number_align` on the parsed fields) is the reference's: explicit,
+    else `=` under the `0` flag, else `>` -/
 theorem normOf_alignNum (p : PySpec) (wf : WfSpec p) :
-    alignChar ((normOf p).align.getD .right) = effAlignNum p := by
-  unfold normOf effAlignNum
+    alignChar ((normOf p).align.getD (numberAlign (normOf p))) = effAlignNum p := by
+  unfold numberAlign normOf effAlignNum
   cases hal : p.align with
   | some a =>
     obtain ⟨al, h1, h2⟩ := alignChar_fromChar a (wf.align a hal)
-    by_cases hz : p.zero = true ∧ p.fill.isNone = true <;> simp [hz, h1, h2]
+    simp [h1, h2]
   | none =>
     have hf : p.fill = none := by
       cases hfl : p.fill with
@@ -1452,8 +1439,8 @@ theorem normOf_alignNum (p : PySpec) (wf : WfSpec p) :
 
 /-- Rust's "sign-aware zero padding" test on the parsed fields is the reference's -/
 theorem normOf_zeroPadded (p : PySpec) (wf : WfSpec p) :
-    ((normOf p).fill = some 48 ∧ (normOf p).align = some .afterSign) ↔ zeroEq p = true := by
-  unfold zeroEq effFill effAlignNum normOf
+    ((normOf p).fill = some 48 ∧ numberAlign (normOf p) = .afterSign) ↔ zeroEq p = true := by
+  unfold zeroEq effFill effAlignNum numberAlign normOf
   cases hf : p.fill with
   | some f =>
     obtain ⟨a, ha⟩ : ∃ a, p.align = some a := by
@@ -1618,7 +1605,7 @@ theorem radix_case (p : PySpec) (n : Int) (wf : WfSpec p) (radix : Nat) (upper :
               · rw [groupRight_length 3 (by omega) _ isCnt3 g raw.length raw rfl]; omega
               · rw [groupRight_length 4 (by omega) _ isCnt4 g raw.length raw rfl]; omega
       generalize pyIntPart p k lead raw [] = mag at *
-      rw [formatSignAndAlign_eq (normOf p) mag lead mag.length .right hw (by omega) rfl]
+      rw [formatSignAndAlign_eq (normOf p) mag lead mag.length (numberAlign (normOf p)) hw (by omega) rfl]
       rw [normOf_fill, normOf_alignNum p wf, hwd]
       simp only [Res.view, List.append_nil]
 
@@ -1761,7 +1748,7 @@ theorem formatInt_eq (p : PySpec) (n : Int) (wf : WfSpec p) (hz : p.z = false)
                 have hwd : (normOf p).width = p.width := rfl
                 have hbw : p.width.getD 0 < 2 ^ 30 := by
                   simp only [boundsOkInt, Bool.and_eq_true, decide_eq_true_eq] at hb; exact hb.1.1
-                rw [formatSignAndAlign_eq (normOf p) [n.toNat] [] [n.toNat].length .right
+                rw [formatSignAndAlign_eq (normOf p) [n.toNat] [] [n.toNat].length (numberAlign (normOf p))
                   (by intro w hw'; rw [hwd] at hw'; rw [hw'] at hbw; simp at hbw; omega) (by simp) rfl]
                 rw [normOf_fill, normOf_alignNum p wf, hwd]
                 simp [Res.view]
@@ -1849,7 +1836,11 @@ theorem formatFloat_N (r : FormatSpec) (b : Nat) (h : r.ftype = some (.number tr
   unfold formatFloat validateFormat
   rw [h]
   cases r.grouping with
-  | none => simp [floatMagnitude, h, Res.bind]
+  | none =>
+    simp only []
+    split
+    · exact ⟨_, rfl⟩
+    · simp [floatMagnitude, h, Res.bind]
   | some g => cases g <;> simp
 
 theorem formatBool_N (r : FormatSpec) (b : Bool) (h : r.ftype = some (.number true)) :
@@ -2019,12 +2010,16 @@ theorem formatString_no_panic (r : FormatSpec) (s : List Nat) (hw : ∀ w, r.wid
       · simp
       · split
         · simp
-        · simp only []; rw [hfsa]; simp [Res.ofOption]
+        · split
+          · simp
+          · simp only []; rw [hfsa]; simp [Res.ofOption]
     · split
       · simp
       · split
         · simp
-        · simp only []; rw [hfsa]; simp [Res.ofOption]
+        · split
+          · simp
+          · simp only []; rw [hfsa]; simp [Res.ofOption]
     · simp
 
 
